@@ -59,3 +59,15 @@ Example ex_join_deliv :
   log_complete 0 ex_join_log = [5%N] /\ log_deliv 0 ex_join_log = [] /\
   final_obs (fst (sys_plan 100 ex_join_scripts sys0 [XSpawn 0; XRun])) [0] = [(0, (TOk 5%N, TAlready))].
 Proof. vm_compute. repeat split; reflexivity. Qed.
+
+(* the executor stalls with an unfinished task that nobody woke *)
+Example ex_stallA_hyp :
+  queue (mex (mrun mach0 [OpSpawn; OpBegin; OpEnd false])) = [] /\
+  dones (mex (mrun mach0 [OpSpawn; OpBegin; OpEnd false])) = [].
+Proof. vm_compute. split; reflexivity. Qed.
+
+(* the two scheduler machines on a sequence with duplicate wakes *)
+Example ex_sched :
+  s_run (0, []) [QWake 2; QWake 5; QWake 2; QTake; QWake 2; QTake; QTake; QTake] =
+  [None; None; None; Some 2; None; Some 5; Some 2; None].
+Proof. vm_compute. reflexivity. Qed.
